@@ -201,7 +201,7 @@ impl Db {
         if rebuild {
             log::info!("rebuilding search index at {}", config.index_path.display());
 
-            let mut writer = db.index.writer(50_000_000)?;
+            let mut writer = db.index.writer_with_num_threads(1, 50_000_000)?;
             writer.delete_all_documents()?;
             #[cfg(feature = "verif")]
             crate::verif::store_step("delete_all");
